@@ -21,6 +21,9 @@ func init() {
 			c.load(rtStorageDir, wazeroDir)
 			c.ruleOverlay()
 			c.rulePrefixKeys()
+			c.ruleChildDeletedMarker()
+			c.ruleChildKeysMerge()
+			c.ruleChildRecreate()
 			c.min("R-OVERLAY/prefixkeys", 2)
 			c.min("R-OVERLAY/O1", 9)
 			c.min("R-OVERLAY/O2", 4)
